@@ -11,13 +11,14 @@ int main(void)
     for(int i = 0; i < NPORTS; i++) T.ports.push_back({NAMES[i], "", nullptr, [](const char *, RtData &) {}});
     T.refreshMagic();
     Port_Matcher *pm = T.impl;
-    printf("#define H_NPOS %d\n#define H_NASSOC %d\n#define H_NREMAP %d\n", (int)pm->pos.size(), (int)pm->assoc.size(), (int)pm->remap.size());
-    printf("static int H_POS[] = {"); for(int x : pm->pos) printf("%d,", x); printf("0};\n");
-    printf("static int H_ASSOC[] = {"); for(int x : pm->assoc) printf("%d,", x); printf("0};\n");
-    printf("static int H_REMAP[] = {"); for(int x : pm->remap) printf("%d,", x); printf("0};\n");
-    printf("static bool H_ENUMP[] = {"); for(int i = 0; i < NPORTS; i++) printf("%d,", (int)pm->enump()[i]); printf("0};\n");
-    printf("static std::string H_FIXED[] = {"); for(auto &s : pm->fixed) printf("\"%s\",", s.c_str()); printf("\"\"};\n");
-    printf("static const char *H_ARGS[] = {"); for(auto s : pm->arg_spec) { if(s) printf("\"%s\",", s); else printf("0,"); } printf("0};\n");
-    printf("#define H_NFIXED %d\n", (int)pm->fixed.size());
+    const char *P_ = PREFIX;   /* "H" for the root table, "S" for the sub-table */
+    printf("#define %s_NPOS %d\n#define %s_NASSOC %d\n#define %s_NREMAP %d\n", P_, (int)pm->pos.size(), P_, (int)pm->assoc.size(), P_, (int)pm->remap.size());
+    printf("static int %s_POS[] = {", P_); for(int x : pm->pos) printf("%d,", x); printf("0};\n");
+    printf("static int %s_ASSOC[] = {", P_); for(int x : pm->assoc) printf("%d,", x); printf("0};\n");
+    printf("static int %s_REMAP[] = {", P_); for(int x : pm->remap) printf("%d,", x); printf("0};\n");
+    printf("static bool %s_ENUMP[] = {", P_); for(int i = 0; i < NPORTS; i++) printf("%d,", (int)pm->enump()[i]); printf("0};\n");
+    printf("static std::string %s_FIXED[] = {", P_); for(auto &s : pm->fixed) printf("\"%s\",", s.c_str()); printf("\"\"};\n");
+    printf("static const char *%s_ARGS[] = {", P_); for(auto s : pm->arg_spec) { if(s) printf("\"%s\",", s); else printf("0,"); } printf("0};\n");
+    printf("#define %s_NFIXED %d\n", P_, (int)pm->fixed.size());
     return 0;
 }
